@@ -1,5 +1,7 @@
 import Rtsp.Props.C18
 import Rtsp.Props.C18Trace
+import Rtsp.Props.Bridge.Size
+import Rtsp.Props.Bridge.Ring
 #print axioms Rtsp.Size.C18.rtp_wire_le_max
 #print axioms Rtsp.Size.C18.rtcp_wire_le_max
 #print axioms Rtsp.Size.C18.oversize_rejected_nothing_sent
@@ -33,3 +35,10 @@ import Rtsp.Props.C18Trace
 #print axioms Rtsp.Size.C18.started_writes_within_udp_payload
 #print axioms Rtsp.Size.C18.marshal_within_buffer
 #print axioms Rtsp.Size.C18.extSize_mod4
+#print axioms Rtsp.Bridge.Size.pow2_bits
+#print axioms Rtsp.Bridge.Size.client_server_same
+#print axioms Rtsp.Bridge.Size.maxReject_eq
+#print axioms Rtsp.Bridge.Size.wqDefaulted_eq
+#print axioms Rtsp.Bridge.Size.clientStart_rejects_iff
+#print axioms Rtsp.Bridge.Size.serverStart_rejects_iff
+#print axioms Rtsp.Bridge.Ring.notPowerOfTwo_eq
